@@ -210,8 +210,190 @@ Qed.
 Ltac split_Zeqb :=
   repeat match goal with |- context [Z.eqb ?a ?b] => destruct (Z.eqb a b) end.
 
-(* quotient d / t of the scaled run against the reference one; dummy corner 0 / 1 on both sides *)
-Ltac quot_length c :=
-  rewrite Rmult_1_l; first [ reflexivity | apply div_scale_cancel; lra ].
-Ltac quot_slow :=
-  first [ apply div_scale_den | unfold Rdiv; ring ].
+(* apparent velocity d / t of the scaled run (lengths by cl, times by cl cz) against the reference one;
+   also when t = 0.  The dummy corners are 0 / 1 in BOTH runs (second alternative). *)
+Lemma quot_scale cl cz d t : cl <> 0 -> (cl * d) / (cl * cz * t) = / cz * (d / t).
+Proof. intros H. unfold Rdiv. rewrite !Rinv_mult. generalize (/ t) (/ cz). intros it icz. field. exact H. Qed.
+
+Ltac quot_both :=
+  first [ rewrite ?dist2d_scale, ?dist3d_scale by lra; apply quot_scale; assumption | unfold Rdiv; ring ].
+
+(* unfold ONE copy of a kernel (the other one is hidden behind a local definition), keep one copy of its
+   selection of corner data as an equation *)
+Ltac open_kernel k u Eu :=
+  cbv beta zeta delta [k];
+  cbv beta iota delta [nleb nsub nmul nadd ndiv nabs nofZ ntruthy neqb NumR];
+  name_selection u Eu.
+
+(* ================================================================== *)
+(* 6. (V2) + (V3), 2D: lengths by cl > 0, times by cl cz, vzero by cz   *)
+(* ================================================================== *)
+Theorem vinterp2d_scale (cl cz : R) (x y v : arr R) (xq yq xsrc ysrc vzero fval : R) : 0 < cl -> cz <> 0 ->
+  u_vinterp2d_v (scale_arr cl x) (scale_arr cl y) (scale_arr (cl * cz) v) (cl * xq) (cl * yq) (cl * xsrc) (cl * ysrc)
+                (cz * vzero) fval =
+  if (inhullb x xq && inhullb y yq)%bool then cl * cz * u_vinterp2d_v x y v xq yq xsrc ysrc vzero fval else fval.
+Proof.
+  intros Hc Hz. assert (Hc0 : cl <> 0) by lra. assert (Hcc : cl * cl <> 0) by nra.
+  assert (Hcz : cl * cz <> 0) by (apply Rmult_integral_contrapositive; split; assumption).
+  assert (Hiz : / cz <> 0) by (apply Rinv_neq_0_compat; exact Hz).
+  unfold inhullb.
+  set (r := u_vinterp2d_v x y v xq yq xsrc ysrc vzero fval).
+  open_kernel (@u_vinterp2d_v) u' Eu'.
+  subst r.
+  open_kernel (@u_vinterp2d_v) u Eu.
+  fold NumR in Eu, Eu' |- *.
+  rewrite ?scale_dim, ?scale_get, ?(ssr_scale cl) in Eu' by exact Hc.
+  rewrite ?scale_dim, ?scale_get, ?(ssr_scale cl) by exact Hc.
+  rewrite !(Rleb_scale cl) by exact Hc.
+  (* outside the hull *)
+  match goal with |- (if negb ?h then _ else _) = _ => destruct h end; cbn [negb]; [|reflexivity].
+  (* the source's cell *)
+  match goal with |- (if ?s then _ else _) = _ => destruct s end.
+  { rewrite dist2d_scale by lra. ring. }
+  (* interior / far faces: the same branch in both runs; then the same zero-time test *)
+  revert Eu' Eu. split_Zeqb; cbn [andb negb]; intros Eu' Eu; subst u u'; cbn [fst snd];
+  rewrite ?(Reqb_scale0 (cl * cz)) by exact Hcz;
+  match goal with |- (if ?t then _ else _) = _ => destruct t end;
+  try (rewrite dist2d_scale by lra; ring);
+  apply (vform2 (cl * cz) cl (/ cz) (cl * cl)); try assumption; try (field; assumption);
+  try (apply dist2d_scale; lra); try quot_both; try abs_scaled.
+Qed.
+
+(* the hull test is the same in both runs: outside, both return the fill value *)
+Corollary vinterp2d_scale_outside (cl cz : R) (x y v : arr R) (xq yq xsrc ysrc vzero fval : R) : 0 < cl -> cz <> 0 ->
+  (inhullb x xq && inhullb y yq)%bool = false ->
+  u_vinterp2d_v (scale_arr cl x) (scale_arr cl y) (scale_arr (cl * cz) v) (cl * xq) (cl * yq) (cl * xsrc) (cl * ysrc)
+                (cz * vzero) fval = fval /\
+  u_vinterp2d_v x y v xq yq xsrc ysrc vzero fval = fval.
+Proof.
+  intros Hc Hz E. split.
+  - rewrite vinterp2d_scale by assumption. rewrite E. reflexivity.
+  - apply vinterp2d_outside. exact E.
+Qed.
+
+(* (V2) LENGTH unit *)
+Theorem vinterp2d_scale_length (c : R) (x y v : arr R) (xq yq xsrc ysrc vzero fval : R) : 0 < c ->
+  u_vinterp2d_v (scale_arr c x) (scale_arr c y) (scale_arr c v) (c * xq) (c * yq) (c * xsrc) (c * ysrc) vzero fval =
+  if (inhullb x xq && inhullb y yq)%bool then c * u_vinterp2d_v x y v xq yq xsrc ysrc vzero fval else fval.
+Proof.
+  intros Hc.
+  pose proof (vinterp2d_scale c 1 x y v xq yq xsrc ysrc vzero fval Hc ltac:(lra)) as E.
+  rewrite !Rmult_1_r, Rmult_1_l in E. exact E.
+Qed.
+
+(* (V3) SLOWNESS unit (c <> 0 suffices: no comparison between scaled quantities) *)
+Theorem vinterp2d_scale_slowness (c : R) (x y v : arr R) (xq yq xsrc ysrc vzero fval : R) : c <> 0 ->
+  u_vinterp2d_v x y (scale_arr c v) xq yq xsrc ysrc (c * vzero) fval =
+  if (inhullb x xq && inhullb y yq)%bool then c * u_vinterp2d_v x y v xq yq xsrc ysrc vzero fval else fval.
+Proof.
+  intros Hc.
+  pose proof (vinterp2d_scale 1 c x y v xq yq xsrc ysrc vzero fval ltac:(lra) Hc) as E.
+  rewrite !scale_arr_1, !Rmult_1_l in E. exact E.
+Qed.
+
+(* ================================================================== *)
+(* 7. (V4) + (V5), 3D                                                   *)
+(* ================================================================== *)
+Theorem vinterp3d_scale (cl cz : R) (x y z v : arr R) (xq yq zq xsrc ysrc zsrc vzero fval : R) :
+  0 < cl -> cz <> 0 ->
+  u_vinterp3d_v (scale_arr cl x) (scale_arr cl y) (scale_arr cl z) (scale_arr (cl * cz) v)
+                (cl * xq) (cl * yq) (cl * zq) (cl * xsrc) (cl * ysrc) (cl * zsrc) (cz * vzero) fval =
+  if (inhullb x xq && inhullb y yq && inhullb z zq)%bool
+  then cl * cz * u_vinterp3d_v x y z v xq yq zq xsrc ysrc zsrc vzero fval else fval.
+Proof.
+  intros Hc Hz. assert (Hc0 : cl <> 0) by lra. assert (Hc2 : 0 < cl * cl) by nra.
+  assert (Hc3 : 0 < cl * cl * cl) by nra. assert (Hccc : cl * cl * cl <> 0) by lra.
+  assert (Hcz : cl * cz <> 0) by (apply Rmult_integral_contrapositive; split; assumption).
+  assert (Hiz : / cz <> 0) by (apply Rinv_neq_0_compat; exact Hz).
+  unfold inhullb.
+  set (r := u_vinterp3d_v x y z v xq yq zq xsrc ysrc zsrc vzero fval).
+  open_kernel (@u_vinterp3d_v) u' Eu'.
+  subst r.
+  open_kernel (@u_vinterp3d_v) u Eu.
+  fold NumR in Eu, Eu' |- *.
+  rewrite ?scale_dim, ?scale_get, ?(ssr_scale cl) in Eu' by exact Hc.
+  rewrite ?scale_dim, ?scale_get, ?(ssr_scale cl) by exact Hc.
+  rewrite !(Rleb_scale cl) by exact Hc.
+  match goal with |- (if negb ?h then _ else _) = _ => destruct h end; cbn [negb]; [|reflexivity].
+  match goal with |- (if ?s then _ else _) = _ => destruct s end.
+  { rewrite dist3d_scale by lra. ring. }
+  revert Eu' Eu. split_Zeqb; cbn [andb negb]; intros Eu' Eu; subst u u'; cbn [fst snd];
+  rewrite ?(Reqb_scale0 (cl * cz)) by exact Hcz;
+  match goal with |- (if ?t then _ else _) = _ => destruct t end;
+  try (rewrite dist3d_scale by lra; ring);
+  apply (vform3 (cl * cz) cl (/ cz) (cl * cl * cl)); try assumption; try (field; assumption);
+  try (apply dist3d_scale; lra); try quot_both; try abs_scaled.
+Qed.
+
+Corollary vinterp3d_scale_outside (cl cz : R) (x y z v : arr R) (xq yq zq xsrc ysrc zsrc vzero fval : R) :
+  0 < cl -> cz <> 0 -> (inhullb x xq && inhullb y yq && inhullb z zq)%bool = false ->
+  u_vinterp3d_v (scale_arr cl x) (scale_arr cl y) (scale_arr cl z) (scale_arr (cl * cz) v)
+                (cl * xq) (cl * yq) (cl * zq) (cl * xsrc) (cl * ysrc) (cl * zsrc) (cz * vzero) fval = fval /\
+  u_vinterp3d_v x y z v xq yq zq xsrc ysrc zsrc vzero fval = fval.
+Proof.
+  intros Hc Hz E. split.
+  - rewrite vinterp3d_scale by assumption. rewrite E. reflexivity.
+  - apply vinterp3d_outside. exact E.
+Qed.
+
+(* (V4) LENGTH unit *)
+Theorem vinterp3d_scale_length (c : R) (x y z v : arr R) (xq yq zq xsrc ysrc zsrc vzero fval : R) : 0 < c ->
+  u_vinterp3d_v (scale_arr c x) (scale_arr c y) (scale_arr c z) (scale_arr c v)
+                (c * xq) (c * yq) (c * zq) (c * xsrc) (c * ysrc) (c * zsrc) vzero fval =
+  if (inhullb x xq && inhullb y yq && inhullb z zq)%bool
+  then c * u_vinterp3d_v x y z v xq yq zq xsrc ysrc zsrc vzero fval else fval.
+Proof.
+  intros Hc.
+  pose proof (vinterp3d_scale c 1 x y z v xq yq zq xsrc ysrc zsrc vzero fval Hc ltac:(lra)) as E.
+  rewrite !Rmult_1_r, Rmult_1_l in E. exact E.
+Qed.
+
+(* (V5) SLOWNESS unit *)
+Theorem vinterp3d_scale_slowness (c : R) (x y z v : arr R) (xq yq zq xsrc ysrc zsrc vzero fval : R) : c <> 0 ->
+  u_vinterp3d_v x y z (scale_arr c v) xq yq zq xsrc ysrc zsrc (c * vzero) fval =
+  if (inhullb x xq && inhullb y yq && inhullb z zq)%bool
+  then c * u_vinterp3d_v x y z v xq yq zq xsrc ysrc zsrc vzero fval else fval.
+Proof.
+  intros Hc.
+  pose proof (vinterp3d_scale 1 c x y z v xq yq zq xsrc ysrc zsrc vzero fval ltac:(lra) Hc) as E.
+  rewrite !scale_arr_1, !Rmult_1_l in E. exact E.
+Qed.
+
+(* ================================================================== *)
+(* 8. (V6) _interp2d / _interp3d: axes and query by c > 0, same values  *)
+(* ================================================================== *)
+Theorem interp2d_scale (c : R) (x y v : arr R) (xq yq fval : R) : 0 < c ->
+  u_interp2d_v (scale_arr c x) (scale_arr c y) v (c * xq) (c * yq) fval = u_interp2d_v x y v xq yq fval.
+Proof.
+  intros Hc. assert (Hc0 : c <> 0) by lra. assert (Hcc : c * c <> 0) by nra.
+  set (r := u_interp2d_v x y v xq yq fval).
+  open_kernel (@u_interp2d_v) u' Eu'.
+  subst r.
+  open_kernel (@u_interp2d_v) u Eu.
+  fold NumR in Eu, Eu' |- *.
+  rewrite ?scale_dim, ?scale_get, ?(ssr_scale c) in Eu' by exact Hc.
+  rewrite ?scale_dim, ?scale_get, ?(ssr_scale c) by exact Hc.
+  rewrite !(Rleb_scale c) by exact Hc.
+  match goal with |- (if negb ?h then _ else _) = _ => destruct h end; cbn [negb]; [|reflexivity].
+  revert Eu' Eu. split_Zeqb; cbn [andb negb]; intros Eu' Eu; subst u u'; cbn [fst snd];
+  apply (iform2 (c * c)); try assumption; abs_scaled.
+Qed.
+
+Theorem interp3d_scale (c : R) (x y z v : arr R) (xq yq zq fval : R) : 0 < c ->
+  u_interp3d_v (scale_arr c x) (scale_arr c y) (scale_arr c z) v (c * xq) (c * yq) (c * zq) fval =
+  u_interp3d_v x y z v xq yq zq fval.
+Proof.
+  intros Hc. assert (Hc0 : c <> 0) by lra. assert (Hc2 : 0 < c * c) by nra.
+  assert (Hc3 : 0 < c * c * c) by nra. assert (Hccc : c * c * c <> 0) by lra.
+  set (r := u_interp3d_v x y z v xq yq zq fval).
+  open_kernel (@u_interp3d_v) u' Eu'.
+  subst r.
+  open_kernel (@u_interp3d_v) u Eu.
+  fold NumR in Eu, Eu' |- *.
+  rewrite ?scale_dim, ?scale_get, ?(ssr_scale c) in Eu' by exact Hc.
+  rewrite ?scale_dim, ?scale_get, ?(ssr_scale c) by exact Hc.
+  rewrite !(Rleb_scale c) by exact Hc.
+  match goal with |- (if negb ?h then _ else _) = _ => destruct h end; cbn [negb]; [|reflexivity].
+  revert Eu' Eu. split_Zeqb; cbn [andb negb]; intros Eu' Eu; subst u u'; cbn [fst snd];
+  apply (iform3 (c * c * c)); try assumption; abs_scaled.
+Qed.
